@@ -18,6 +18,9 @@ pub struct Step {
     pub op: u8,
     pub key: u8,
     pub fire: bool,
+    /// the operation goes through a freshly opened handle (another process / a restart)
+    #[serde(default)]
+    pub fresh: bool,
 }
 
 #[derive(Clone, Debug, Serialize, Deserialize)]
@@ -38,13 +41,13 @@ const GRANS: &[i64] = &[1, 1_000_000_000, 2_000_000_000];
 const PHASES: &[i128] = &[0, 300_000_000, 999_999_999, 1_500_000_000];
 
 fn gen_hist() -> impl Strategy<Value = Hist> {
-    (0u8..4, 0u8..3, 0u8..4, 0u8..3, 0u8..3, prop::collection::vec((0u8..6, prop_oneof![12 => 0u8..7, 1 => Just(7u8)], 0u8..4, prop::bool::weighted(0.5)), 1..26)).prop_map(|(policy, gran, phase, fe, cap_sel, steps)| Hist {
+    (0u8..4, 0u8..3, 0u8..4, 0u8..3, 0u8..3, prop::collection::vec((0u8..6, prop_oneof![12 => 0u8..7, 1 => Just(7u8)], 0u8..4, prop::bool::weighted(0.5), prop::bool::weighted(0.15)), 1..26)).prop_map(|(policy, gran, phase, fe, cap_sel, steps)| Hist {
         policy,
         gran: if policy == 0 { 0 } else { gran },
         phase,
         fe,
         cap_sel,
-        steps: steps.into_iter().map(|(advance, op, key, fire)| Step { advance, op, key, fire }).collect(),
+        steps: steps.into_iter().map(|(advance, op, key, fire, fresh)| Step { advance, op, key, fire, fresh }).collect(),
     })
 }
 
@@ -89,7 +92,7 @@ pub fn judge(root: &Path, h: &Hist) -> Result<Outcome, (String, String)> {
         let n_steps = h.steps.len();
         for si in 0..=n_steps {
             // the history always ends with a forced maintenance of every directory
-            let st = if si < n_steps { h.steps[si].clone() } else { Step { advance: 4, op: 6, key: 0, fire: false } };
+            let st = if si < n_steps { h.steps[si].clone() } else { Step { advance: 4, op: 6, key: 0, fire: false, fresh: false } };
             world.advance_clock(ADVANCES[st.advance as usize % ADVANCES.len()]);
             let vnow = if emu.is_some() { world.clock() } else { now_ns() };
             let ks = key_spec(st.key);
@@ -160,9 +163,10 @@ pub fn judge(root: &Path, h: &Hist) -> Result<Outcome, (String, String)> {
             }
             set_no_read(st.op == 3);
             let op = Op { kind, key: ks.clone(), val: val.clone(), pop: Pop::Value, nosy: false, link_from: None };
+            let fresh_handle = if st.fresh { Some(if h.fe == 2 { open_stack(root, &StackSpec { writer: Some(wspec.clone()), readers: vec![], checker: Checker::None, auto_sync: false }) } else { open_dir(root, &wspec) }) } else { None };
             let (r, ev) = traced(&world, || {
                 script_rng(st.fire, 1);
-                exec(root, &handle, &op)
+                exec(root, fresh_handle.as_ref().unwrap_or(&handle), &op)
             });
             set_no_read(false);
             let (ret, _) = r.map_err(|p| ("c09:panic".to_string(), format!("{}: {}", ctx(), p)))?;
